@@ -101,20 +101,6 @@ theorem planner_sound_abstract {V : Type} (O : Pl.VOrd V) (d : Pl.Doc V) (f : Pl
 
 end CV.Props.C02
 
-namespace CV.Props.C02
-
-/-- (facts, regenerated from the source on every run) **The decision logic the model transcribes is the
-    decision logic of the current source**: plan selection (`getIndexQueries`, `tryToSelectIndex`) and the two scan paths of `iterNode` — what `choosePlan`, `indexQuery`, `fullScan` and `onIdOf` of the model transcribe.  The text is the functions' bodies with comments and layout
-    removed.  Any edit of these functions breaks this theorem at build time; the check then searches
-    with the property's own oracles for a failing input (and reports `no-failing-input-found` if the
-    edit was harmless: the model then has to be re-validated against the new text). -/
-theorem source_decision_logic : CV.Facts.logicC02 = [
-  "clover..getIndexQueries: { if q.Criteria() == nil || len(indexes) == 0 { return nil } info := make(map[string]*index.Info) for _, idx := range indexes { info[idx.Field()] = &index.Info{ Field: idx.Field(), Type: idx.Type(), } } c := q.Criteria().Accept(&NotFlattenVisitor{}).(query.Criteria) selectedFields := c.Accept(&IndexSelectVisitor{ Fields: info, }).([]*index.Info) if len(selectedFields) == 0 { return nil } indexesMap := make(map[string]index.Index) for _, idx := range indexes { indexesMap[idx.Field()] = idx } fieldRanges := c.Accept(NewFieldRangeVisitor([]string{selectedFields[0].Field})).(map[string]*index.Range) queries := make([]index.Query, 0) for field, vRange := range fieldRanges { queries = append(queries, &index.RangeIndexQuery{ Range: vRange, Idx: indexesMap[field].(index.RangeIndex), }) } return queries }", 
-  "clover..tryToSelectIndex: { indexQueries := getIndexQueries(q, indexes) if len(indexQueries) == 1 { outputSorted := false idxQuery := indexQueries[0] if rangeQuery, ok := idxQuery.(*index.RangeIndexQuery); ok { if len(q.SortOptions()) == 1 && q.SortOptions()[0].Field == rangeQuery.Idx.Field() { rangeQuery.Reverse = q.SortOptions()[0].Direction < 0 outputSorted = true } } return &iterNode{ idxQuery: idxQuery, filter: q.Criteria(), collection: q.Collection(), }, outputSorted } if len(q.SortOptions()) == 1 { for _, idx := range indexes { if idx.Type() == index.SingleField && idx.Field() == q.SortOptions()[0].Field { return &iterNode{ filter: q.Criteria(), collection: q.Collection(), idxQuery: &index.RangeIndexQuery{ Range: nil, Idx: idx.(index.RangeIndex), Reverse: q.SortOptions()[0].Direction < 0, }, }, true } } } return nil, false }", 
-  "clover.iterNode.iterateFullCollection: { prefix := []byte(getDocumentKeyPrefix(nd.collection)) return iteratePrefix(prefix, tx, func(item store.Item) error { doc, err := d.Decode(item.Value) if err != nil { return err } if nd.filter == nil || nd.filter.Satisfy(doc) { return nd.CallNext(doc) } return nil }) }", 
-  "clover.iterNode.iterateIndex: { iterFunc := func(docId string) error { doc, err := getDocumentById(nd.collection, docId, tx) if err != nil || doc == nil { return err } if nd.filter == nil || nd.filter.Satisfy(doc) { return nd.CallNext(doc) } return nil } err := nd.idxQuery.Run(iterFunc) return err }"] := by rfl
-
-end CV.Props.C02
 
 namespace CV.Props.C02
 open CV
@@ -161,3 +147,33 @@ theorem copy_index_transparent (s : Spec.State) (σ : KVS) (hw : WF s) (hr : Rep
   createCollectionByQuery_exact_any_plan likeFn fnFam s σ hw hr c hc q fresh hdomain hskip hlimit
 
 end CV.Props.C02
+
+-- SOURCE-TEXT-BEGIN (generated by tools/mk_source_theorems.py; do not edit by hand)
+namespace CV.Props.C02
+
+/-- (facts, regenerated from the source on every run) **The source text the model transcribes is the text of the
+    current source**: the bodies (comments and layout removed) of the 17 functions the model behind C02 was written from and
+    validated against.  Any edit of one of them breaks this theorem at build time; the check then searches with the
+    property's own oracles for a failing input, and reports `no-failing-input-found` if it finds none: the model then
+    has to be re-validated against the new text (and this block regenerated). -/
+theorem source_decision_logic : CV.Facts.logicC02 = [
+  "clover..getIndexQueries: { if q.Criteria() == nil || len(indexes) == 0 { return nil } info := make(map[string]*index.Info) for _, idx := range indexes { info[idx.Field()] = &index.Info{ Field: idx.Field(), Type: idx.Type(), } } c := q.Criteria().Accept(&NotFlattenVisitor{}).(query.Criteria) selectedFields := c.Accept(&IndexSelectVisitor{ Fields: info, }).([]*index.Info) if len(selectedFields) == 0 { return nil } indexesMap := make(map[string]index.Index) for _, idx := range indexes { indexesMap[idx.Field()] = idx } fieldRanges := c.Accept(NewFieldRangeVisitor([]string{selectedFields[0].Field})).(map[string]*index.Range) queries := make([]index.Query, 0) for field, vRange := range fieldRanges { queries = append(queries, &index.RangeIndexQuery{ Range: vRange, Idx: indexesMap[field].(index.RangeIndex), }) } return queries }", 
+  "clover..tryToSelectIndex: { indexQueries := getIndexQueries(q, indexes) if len(indexQueries) == 1 { outputSorted := false idxQuery := indexQueries[0] if rangeQuery, ok := idxQuery.(*index.RangeIndexQuery); ok { if len(q.SortOptions()) == 1 && q.SortOptions()[0].Field == rangeQuery.Idx.Field() { rangeQuery.Reverse = q.SortOptions()[0].Direction < 0 outputSorted = true } } return &iterNode{ idxQuery: idxQuery, filter: q.Criteria(), collection: q.Collection(), }, outputSorted } if len(q.SortOptions()) == 1 { for _, idx := range indexes { if idx.Type() == index.SingleField && idx.Field() == q.SortOptions()[0].Field { return &iterNode{ filter: q.Criteria(), collection: q.Collection(), idxQuery: &index.RangeIndexQuery{ Range: nil, Idx: idx.(index.RangeIndex), Reverse: q.SortOptions()[0].Direction < 0, }, }, true } } } return nil, false }", 
+  "clover..unaryCriteriaToRange: { if isFieldReference(c.Value) { return nil } if c.Value == nil && c.OpType != query.EqOp { return nil } switch c.OpType { case query.EqOp: return &index.Range{ Start: c.Value, End: c.Value, StartIncluded: true, EndIncluded: true, } case query.LtOp: return &index.Range{ Start: nil, End: c.Value, StartIncluded: false, EndIncluded: false, } case query.LtEqOp: return &index.Range{ Start: nil, End: c.Value, StartIncluded: false, EndIncluded: true, } case query.GtOp: return &index.Range{ Start: c.Value, End: nil, StartIncluded: false, EndIncluded: false, } case query.GtEqOp: return &index.Range{ Start: c.Value, End: nil, StartIncluded: true, EndIncluded: false, } } return nil }", 
+  "clover.FieldRangeVisitor.VisitBinaryCriteria: { if c.OpType != query.LogicalAnd { return map[string]*index.Range{} } leftRanges := c.C1.Accept(v).(map[string]*index.Range) rightRanges := c.C2.Accept(v).(map[string]*index.Range) mergedMap := make(map[string]*index.Range) for key, value := range leftRanges { mergedMap[key] = value } for key, value := range rightRanges { vRange := mergedMap[key] if vRange == nil { mergedMap[key] = value } else { mergedMap[key] = vRange.Intersect(value) } } return mergedMap }", 
+  "clover.FieldRangeVisitor.VisitNotCriteria: { return map[string]*index.Range{} }", 
+  "clover.FieldRangeVisitor.VisitUnaryCriteria: { if v.Fields[c.Field] { r := unaryCriteriaToRange(c) if r != nil { return map[string]*index.Range{c.Field: r} } } return map[string]*index.Range{} }", 
+  "clover.IndexSelectVisitor.VisitBinaryCriteria: { leftIndexes := c.C1.Accept(v).([]*index.Info) rightIndexes := c.C2.Accept(v).([]*index.Info) if c.OpType == query.LogicalAnd { if len(leftIndexes) > 0 && len(leftIndexes) < len(rightIndexes) { return leftIndexes } return rightIndexes } if len(leftIndexes) == 0 || len(rightIndexes) == 0 { return []*index.Info{} } res := make([]*index.Info, 0, len(leftIndexes)+len(rightIndexes)) res = append(res, leftIndexes...) res = append(res, rightIndexes...) return res }", 
+  "clover.IndexSelectVisitor.VisitNotCriteria: { return []*index.Info{} }", 
+  "clover.IndexSelectVisitor.VisitUnaryCriteria: { info := v.Fields[c.Field] if info != nil { return []*index.Info{info} } return []*index.Info{} }", 
+  "clover.NotFlattenVisitor.VisitBinaryCriteria: { return &query.BinaryCriteria{ OpType: c.OpType, C1: c.C1.Accept(v).(query.Criteria), C2: c.C2.Accept(v).(query.Criteria), } }", 
+  "clover.NotFlattenVisitor.VisitNotCriteria: { switch criteriaType := c.C.(type) { case *query.UnaryCriteria: return v.removeNotCriteria(c) case *query.BinaryCriteria: opType := criteriaType.OpType if opType == query.LogicalAnd { opType = query.LogicalOr } else { opType = query.LogicalAnd } return &query.BinaryCriteria{ OpType: opType, C1: v.VisitNotCriteria(&query.NotCriteria{C: criteriaType.C1}).(query.Criteria), C2: v.VisitNotCriteria(&query.NotCriteria{C: criteriaType.C2}).(query.Criteria), } case *query.NotCriteria: return criteriaType.C } return c }", 
+  "clover.NotFlattenVisitor.VisitUnaryCriteria: { return c }", 
+  "clover.NotFlattenVisitor.removeNotCriteria: { innerNode := c.C unaryCriteria := innerNode.(*query.UnaryCriteria) switch unaryCriteria.OpType { case query.EqOp: return &query.BinaryCriteria{ OpType: query.LogicalOr, C1: &query.UnaryCriteria{ OpType: query.LtOp, Value: unaryCriteria.Value, Field: unaryCriteria.Field, }, C2: &query.UnaryCriteria{ OpType: query.GtOp, Field: unaryCriteria.Field, Value: unaryCriteria.Value, }, } case query.LtOp: return &query.UnaryCriteria{ OpType: query.GtEqOp, Value: unaryCriteria.Value, Field: unaryCriteria.Field, } case query.LtEqOp: return &query.UnaryCriteria{ OpType: query.GtOp, Field: unaryCriteria.Field, Value: unaryCriteria.Value, } case query.GtOp: return &query.UnaryCriteria{ OpType: query.LtEqOp, Value: unaryCriteria.Value, Field: unaryCriteria.Field, } case query.GtEqOp: return &query.UnaryCriteria{ OpType: query.LtOp, Value: unaryCriteria.Value, Field: unaryCriteria.Field, } } return c }", 
+  "clover.iterNode.Run: { if nd.idxQuery != nil { return nd.iterateIndex(tx) } return nd.iterateFullCollection(tx) }", 
+  "clover.iterNode.iterateFullCollection: { prefix := []byte(getDocumentKeyPrefix(nd.collection)) return iteratePrefix(prefix, tx, func(item store.Item) error { doc, err := d.Decode(item.Value) if err != nil { return err } if nd.filter == nil || nd.filter.Satisfy(doc) { return nd.CallNext(doc) } return nil }) }", 
+  "clover.iterNode.iterateIndex: { iterFunc := func(docId string) error { doc, err := getDocumentById(nd.collection, docId, tx) if err != nil || doc == nil { return err } if nd.filter == nil || nd.filter.Satisfy(doc) { return nd.CallNext(doc) } return nil } err := nd.idxQuery.Run(iterFunc) return err }", 
+  "index.RangeIndexQuery.Run: { if q.Range == nil { return q.Idx.Iterate(q.Reverse, onValue) } return q.Idx.IterateRange(q.Range, q.Reverse, onValue) }"] := by rfl
+
+end CV.Props.C02
+-- SOURCE-TEXT-END
